@@ -1045,7 +1045,7 @@ def _f27(kind, fn, arg, detail):
                 return False
     return False
 
-KNOWN_SIGNATURES = {'F12': _f12, 'F24': _f24, 'F27': _f27}
+KNOWN_SIGNATURES = {'F12': _f12, 'F24': _f24, 'F30': _f27}
 
 def replay_known(finding):
     p = finding.get('pinned')
@@ -1238,7 +1238,7 @@ def gen(tier, rng):
     for t in (FLD('zz'), FLD('nope'), OFLD('nope'), [12, [OFLD('nope'), L('x')]]):
         yield ('pinned', 2, [t, ent3, [DB2], 0, 0])
         yield ('pinned', 2, [t, ent3, [[['par', 'misc', [['crossref', 'par']], []]]], 0, 0])
-    yield ('pinned', 1, [cfg0, [['k', 'inproceedings', [['title', 'T'], ['booktitle', ''], ['year', '']], [['author', [P(last=['A'])]]]]], None])   # F27
+    yield ('pinned', 1, [cfg0, [['k', 'inproceedings', [['title', 'T'], ['booktitle', ''], ['year', '']], [['author', [P(last=['A'])]]]]], None])   # F30
     yield ('pinned', 1, [cfg0, [['k', 'incollection', [['title', 'T'], ['booktitle', '{}'], ['year', ' ']], [['author', [P(last=['A'])]]]]], None])
     # ---- exhaustive small scope: string-level helpers
     for n in range(0, 6 if quick else 7):
@@ -1387,5 +1387,5 @@ TRUSTED_BASE = ['modelled (not verified) code: pybtex/style/template.py, style/f
                 'latexcodec (codecs.decode(.., "ulatex")) is a library: its results are handed to the model as a table']
 ASSUMPTIONS = ['letter classes / case mapping are ASCII (Base/PyChar); generated names and field values contain no non-ASCII letters',
                'unicodedata-based _strip_accents is the identity on the generated domain']
-PARTIAL = ['F27 (an inproceedings/incollection entry whose booktitle and year are present but empty renders "... In") is a known finding', 'field coverage is relative to the dumped template trees (what the style reads is data); the four back ends are exercised by the oracle only (rendering succeeds, text back end ends with a terminator)',
+PARTIAL = ['F30 (an inproceedings/incollection entry whose booktitle and year are present but empty renders "... In") is a known finding', 'field coverage is relative to the dumped template trees (what the style reads is data); the four back ends are exercised by the oracle only (rendering succeeds, text back end ends with a terminator)',
            'F12 (alpha label collision) and F24 (empty entry) are known findings: alpha_labels_distinct and entry_terminated are proved in their _partial form with _refuted witnesses']
